@@ -336,7 +336,8 @@ def check(prop, tier, only=None):
         unit_meta.append({"unit": unit["name"], "pkg": pkgpath, "tags": unit.get("tags", ""), "ssa_funcs": len(_PROG.funcs), "dump_s": round(dt, 2), "harnesses": names})
         if nworkers > 1 and len(names) > 1:
             ctx = mp.get_context("fork")
-            with ctx.Pool(min(nworkers, len(names))) as pool:
+            from .engine import _die_with_parent
+            with ctx.Pool(min(nworkers, len(names)), initializer=_die_with_parent) as pool:
                 results = []
                 for r in pool.imap_unordered(run_one, names, chunksize=1):
                     results.append(r)
